@@ -366,9 +366,9 @@ Section Fold.
   Proof. unfold collect_fold_elements. destruct maxl as [m|]; [destruct (Z.ltb m _)|]; reflexivity. Qed.
 
   (* what fold_one yields for one prepared context *)
-  Lemma fold_one_spec (Pimp : list (fieldref * tagged) -> Prop) vs ss imp h sub sub_compute fromv maxl c c2 o :
+  Lemma fold_one_spec (Pimp : list (fieldref * tagged) -> Prop) (Q : ctx -> Prop) vs ss imp h sub sub_compute fromv maxl c c2 o :
     (forall imp' cs' r', Pimp imp' -> Forall (clean imp') cs' -> Forall fresh cs' -> sub_compute cs' = Ok r' ->
-        map asg_of r' = flat_map (fun x => sem_comp re_match g args sub imp' (active x)) cs') ->
+        map asg_of r' = flat_map (fun x => sem_comp re_match g args sub imp' (active x)) cs' /\ Forall Q r') ->
     (forall a, Pimp (imports_of vs ss imp a (fo_imported h) imp)) ->
     find_vertex vs (fo_from h) = Some fromv ->
     get_max_fold_count_limit args h = Ok maxl ->
@@ -389,7 +389,8 @@ Section Fold.
           | Some (Some v) =>
               exists els, fe = Some els /\
                 map asg_of els = flat_map (fun n => sem_comp re_match g args sub (imports_of vs ss imp (asg_of c) (fo_imported h) imp) (Some n))
-                                          (g_nbrs g (v_type fromv) (fo_name h) (fo_params h) v)
+                                          (g_nbrs g (v_type fromv) (fo_name h) (fo_params h) v) /\
+                Forall Q els
           | _ => fe = None
           end
     | None =>
@@ -403,14 +404,15 @@ Section Fold.
     set (imp' := imports_of vs ss imp (asg_of c) (fo_imported h) imp) in *.
     set (ns := resolve_nbrs g (v_type fromv) (fo_name h) (fo_params h) c2) in *.
     (* the sub-component run *)
-    assert (Hcomp : map asg_of x = flat_map (fun n => sem_comp re_match g args sub imp' (Some n)) ns).
+    assert (Hcomp : map asg_of x = flat_map (fun n => sem_comp re_match g args sub imp' (Some n)) ns /\ Forall Q x).
     { rewrite Himp in Hx.
       assert (F1 : Forall (clean imp') (map (fun n : vertex => set_imported (ctx_new (Some n)) imp') ns)).
       { apply Forall_forall. intros y Hy. apply in_map_iff in Hy. destruct Hy as (n & <- & _). repeat split; constructor. }
       assert (F2 : Forall fresh (map (fun n : vertex => set_imported (ctx_new (Some n)) imp') ns)).
       { apply Forall_forall. intros y Hy. apply in_map_iff in Hy. destruct Hy as (n & <- & _). repeat split. }
-      rewrite (Hsub imp' _ _ (Hpimp _) F1 F2 Hx).
+      destruct (Hsub imp' _ _ (Hpimp _) F1 F2 Hx) as (Hsub1 & HsubQ). split; [|exact HsubQ]. rewrite Hsub1.
       rewrite flat_map_map. apply flat_map_ext_in. intros n _. reflexivity. }
+    destruct Hcomp as (Hcomp & HQx).
     unfold vertex_at in Hx0. rewrite S1 in Hx0.
     destruct (lookup_N (fo_from h) (vertices c)) as [ov|] eqn:El; [|discriminate]. injection Hx0 as <-.
     assert (Hns : ns = match ov with Some v => g_nbrs g (v_type fromv) (fo_name h) (fo_params h) v | None => [] end).
@@ -451,7 +453,7 @@ Section Fold.
       + destruct (Hrest (Some x) H) as (y0 & Hy0 & Hcl & Ha & Hvy & Hfv & Hlk & Hfc).
         first [subst o | (injection Hy0 as <-)].
         split; [assumption|]. split; [assumption|]. split; [assumption|]. split; [assumption|]. split; [assumption|].
-        exists (Some x). split; [assumption|]. exists x. split; [reflexivity|].
+        exists (Some x). split; [assumption|]. exists x. split; [reflexivity|]. split; [|exact HQx].
         rewrite Hcomp, Hns. reflexivity.
     - destruct (Hrest None H) as (y0 & Hy0 & Hcl & Ha & Hvy & Hfv & Hlk & Hfc).
       first [subst o | (injection Hy0 as <-)].
@@ -477,22 +479,23 @@ Section Fold.
   Qed.
 
   (* what remains of one incoming context after the fold has been computed and its count filters applied *)
-  Definition after_fold (vs : list ir_vertex) (ss : list step) (imp : list (fieldref * tagged)) (h : fold_hdr)
+  Definition after_fold (Q : ctx -> Prop) (vs : list ir_vertex) (ss : list step) (imp : list (fieldref * tagged)) (h : fold_hdr)
              (sub : ir_component) (c : ctx) (ys : list ctx) : Prop :=
     map asg_of ys = step_fold re_match g args vs ss imp h (sem_comp re_match g args sub) (asg_of c) /\
     Forall (fun y => clean imp y /\ vertices y = vertices c /\ folded_values y = folded_values c /\
                      lookup_N (fo_eid h) (folded_contexts c) = None /\
-                     exists fe, folded_contexts y = folded_contexts c ++ [(fo_eid h, fe)]) ys.
+                     exists fe, folded_contexts y = folded_contexts c ++ [(fo_eid h, fe)] /\
+                                match fe with Some els => Forall Q els | None => True end) ys.
 
-  Theorem fold_step_spec (Pimp : list (fieldref * tagged) -> Prop) vs ss imp h sub sub_compute cs r :
+  Theorem fold_step_spec (Pimp : list (fieldref * tagged) -> Prop) (Q : ctx -> Prop) vs ss imp h sub sub_compute cs r :
     (forall imp' cs' r', Pimp imp' -> Forall (clean imp') cs' -> Forall fresh cs' -> sub_compute cs' = Ok r' ->
-        map asg_of r' = flat_map (fun x => sem_comp re_match g args sub imp' (active x)) cs') ->
+        map asg_of r' = flat_map (fun x => sem_comp re_match g args sub imp' (active x)) cs' /\ Forall Q r') ->
     (forall a, Pimp (imports_of vs ss imp a (fo_imported h) imp)) ->
     no_min_limit vs h sub ->
     Forall (key_fresh imp) (fo_imported h) ->
     Forall (clean imp) cs ->
     fold_step re_match g args vs ss h sub sub_compute cs = Ok r ->
-    exists yss, Forall2 (after_fold vs ss imp h sub) cs yss /\
+    exists yss, Forall2 (after_fold Q vs ss imp h sub) cs yss /\
                 mapM (fold_outputs_one g h sub) (List.concat yss) = Ok r.
   Proof.
     intros Hsub Hpimp Hnomin Hfresh Hc H. unfold fold_step in H.
@@ -538,7 +541,7 @@ Section Fold.
           { destruct Hs as (S1&S2&S3&S4&S5&S6). destruct y; cbn in *. repeat split; assumption. }
           assert (Ha' : active (set_active y (act_at y (fo_from h))) = act_at c (fo_from h)).
           { destruct Hs as (S1&_). unfold act_at. rewrite S1. destruct y; reflexivity. }
-          pose proof (fold_one_spec Pimp vs ss imp h sub sub_compute fromv maxl c _ _ Hsub Hpimp Ef Hmax Hfresh Hc1 Hs' Hi' Ha' Ho) as Hspec.
+          pose proof (fold_one_spec Pimp Q vs ss imp h sub sub_compute fromv maxl c _ _ Hsub Hpimp Ef Hmax Hfresh Hc1 Hs' Hi' Ha' Ho) as Hspec.
           cbn beta iota in Hspec. destruct Hspec as (Hcl & _). constructor; [exact Hcl|constructor].
         + cbn [map flat_map List.concat]. now rewrite E. }
     destruct Hper as (yss0 & HF0 & Hcat). rewrite Hcat in Hx0.
@@ -562,7 +565,7 @@ Section Fold.
         { destruct Hs as (S1&S2&S3&S4&S5&S6). destruct y; cbn in *. repeat split; assumption. }
         assert (Ha' : active (set_active y (act_at y (fo_from h))) = act_at c (fo_from h)).
         { destruct Hs as (S1&_). unfold act_at. rewrite S1. destruct y; reflexivity. }
-        pose proof (fold_one_spec Pimp vs ss imp h sub sub_compute fromv maxl c _ _ Hsub Hpimp Ef Hmax Hfresh Hc1 Hs' Hi' Ha' Ho) as Hspec.
+        pose proof (fold_one_spec Pimp Q vs ss imp h sub sub_compute fromv maxl c _ _ Hsub Hpimp Ef Hmax Hfresh Hc1 Hs' Hi' Ha' Ho) as Hspec.
         rewrite Ho. cbn beta iota in Hspec. destruct o as [y3|].
         * destruct Hspec as (Hcl3 & Hact & Hv3 & Hfv3 & Hlk & fe & Hfc & Hfe).
           pose proof (asg_of_folded y3 c (fo_eid h) fe Hv3 Hfc) as Hasg.
@@ -571,7 +574,7 @@ Section Fold.
           { unfold count_left. rewrite Hfc, (lookup_N_app_fresh _ _ fe Hlk). destruct fe; reflexivity. }
           unfold step_fold. rewrite Ef, a_v_asg_of.
           destruct (lookup_N (fo_from h) (vertices c)) as [[v|]|] eqn:El.
-          -- destruct Hfe as (els & -> & Hels). cbn [option_map] in Hasg.
+          -- destruct Hfe as (els & -> & Hels & HQels). cbn [option_map] in Hasg.
              fold (imports_of vs ss imp (asg_of c) (fo_imported h) imp). rewrite <- Hels.
              rewrite map_length.
              assert (Hpp : forallb (fun pf => ppass vs ss imp h (v_type fromv) pf y3) (fo_post h) =
@@ -582,18 +585,21 @@ Section Fold.
              rewrite Hpp.
              match goal with |- context [if ?b then [y3] else []] => destruct b end.
              ++ split; [cbn [map]; now rewrite Hasg|]. constructor; [|constructor].
-                split; [assumption|]. split; [assumption|]. split; [assumption|]. split; [assumption|]. eauto.
+                split; [assumption|]. split; [assumption|]. split; [assumption|]. split; [assumption|].
+                eexists; split; [eassumption|]; first [exact HQels | exact I].
              ++ split; [reflexivity|constructor].
           -- subst fe. cbn [option_map] in Hasg.
              assert (Hpp : forallb (fun pf => ppass vs ss imp h (v_type fromv) pf y3) (fo_post h) = true).
              { apply forallb_forall. intros pf _. unfold ppass. rewrite Hact. unfold act_at. rewrite El. reflexivity. }
              rewrite Hpp. split; [cbn [map]; now rewrite Hasg|]. constructor; [|constructor].
-             split; [assumption|]. split; [assumption|]. split; [assumption|]. split; [assumption|]. eauto.
+             split; [assumption|]. split; [assumption|]. split; [assumption|]. split; [assumption|].
+                eexists; split; [eassumption|]; first [exact HQels | exact I].
           -- subst fe. cbn [option_map] in Hasg.
              assert (Hpp : forallb (fun pf => ppass vs ss imp h (v_type fromv) pf y3) (fo_post h) = true).
              { apply forallb_forall. intros pf _. unfold ppass. rewrite Hact. unfold act_at. rewrite El. reflexivity. }
              rewrite Hpp. split; [cbn [map]; now rewrite Hasg|]. constructor; [|constructor].
-             split; [assumption|]. split; [assumption|]. split; [assumption|]. split; [assumption|]. eauto.
+             split; [assumption|]. split; [assumption|]. split; [assumption|]. split; [assumption|].
+                eexists; split; [eassumption|]; first [exact HQels | exact I].
         * destruct Hspec as (v & El & Hnil). unfold after_fold. cbn [filter map]. rewrite Hnil. split; [reflexivity|constructor].
     - assert (Hfc : filter (fun c0 => forallb (fun pf => ppass vs ss imp h (v_type fromv) pf c0) (fo_post h)) (List.concat yss0)
                     = List.concat (map (filter (fun c0 => forallb (fun pf => ppass vs ss imp h (v_type fromv) pf c0) (fo_post h))) yss0)).
